@@ -689,13 +689,15 @@ def check_c10(run: Run, prog: Program) -> None:
 
     run.title = "Perpendicular/parallel/projection/mirror constructions meet their definitions"
     run.clause = (
-        "decides TWO constructions of the plane as polynomial identities (E19.metric): SubspaceTensor.parallel and LineTensor.mirror are interpreted on a symbolic line "
+        "decides SIX constructions as polynomial identities (E19.metric): SubspaceTensor.parallel and LineTensor.mirror are interpreted on a symbolic line "
         "(a, b, c) and point (x, y, w); their joins and meets go through the interpreted duality dispatcher (as under C01), the line at infinity and the circular points "
         "I, J are read from the module (complex constants a + b i with i^2 = -1). The parallel passes through the point and has the normal of the line - likewise for a plane of 3-space, where the construction runs through the line at infinity of "
         "the plane (a 2-tensor), its contravariant form and Tensor.__mul__, all interpreted; the mirror image "
         "built from the circular points is the Cartesian reflection (x, y) - 2 (a x + b y + c w) / (a^2 + b^2) (a, b) for every representative (the complex factor "
-        "cancels). NOT decided - the larger part of C10: perpendicular and project (boolean-mask assignment into an uninitialised buffer; its complete initialisation is "
-        "a clause of C04), everything in 3-space (lines as 2-tensors, basis_matrix), is_perpendicular / is_parallel / is_cocircular / is_coplanar (tolerances), "
+        "cancels). LineTensor.perpendicular in the plane (point off the line: through the mirror image; point of the line: through the normal direction; the mask of a "
+        "single object is one truth value and the masked item assignment on the result is interpreted) passes through the point and is orthogonal to the line; "
+        "SubspaceTensor.project gives the foot of that perpendicular; PlaneTensor.perpendicular in 3-space is the join of the point with the point at infinity of the normal. "
+        "NOT decided: perpendiculars of lines of 3-space (basis_matrix), collections (masks proper), is_perpendicular / is_parallel / is_cocircular / is_coplanar (tolerances), "
         "angle_bisectors, base_point / direction / basis_matrix / general_point (case analysis on vanishing coordinates)."
     )
     run.trusted += ["LeviCivitaTensor(n) holds the permutation signs", "TensorDiagram.calculate contracts as C05 states (decided separately by E14)"]
